@@ -219,6 +219,9 @@ def ROUNDUP(number, digits):
     if utils.any_is_error((number, digits)):
         return error.VALUE
     sign = 1 if number > 0 else -1
+    if digits < 0:
+        # 10**digits is an inexact float (1e-5 is 1.0000000000000001e-05): scale by the exact integer instead
+        return sign * math.ceil(abs(number) / 10**-digits) * 10**-digits
     return sign * (math.ceil(abs(number) * 10**digits)) / 10**digits
 
 
@@ -229,6 +232,9 @@ def ROUNDDOWN(number, digits):
     if utils.any_is_error((number, digits)):
         return error.VALUE
     sign = 1 if number > 0 else -1
+    if digits < 0:
+        # 10**digits is an inexact float: scale by the exact integer instead
+        return sign * math.floor(abs(number) / 10**-digits) * 10**-digits
     return sign * (math.floor(abs(number) * 10**digits)) / 10**digits
 
 
